@@ -190,6 +190,106 @@ func burstBody(kind string, maxNoise int, perGoroutine bool) func() {
 	}
 }
 
+// arrival: the token's arrival at the catch event races the deliveries. In the "behind" shape
+// the answer to t0 and n deliveries of the matching event are issued from separate goroutines
+// (or back-to-back) without waiting for quiescence. Whether a delivery finds the catch event
+// listening depends on the interleaving, so only the clauses that hold for every interleaving
+// are checked: every call returns, the catch event continues at most once (one token), and if
+// it has not continued a further delivery at quiescence makes it continue exactly once.
+func arrivalBody(kind string, maxEvents int, mode string) func() {
+	ev := sig
+	if kind == "message" {
+		ev = msg
+	}
+	var sh shape
+	for _, x := range shapes() {
+		if x.name == "behind" {
+			sh = x
+		}
+	}
+	g := sh.build(ev)
+	defs := g.Parse()
+	return func() {
+		n := 1 + verifrt.Choose(maxEvents)
+		r := drv.Open(g, defs, drv.OpenOpts{})
+		var w *drv.Wait
+		r.AfterStart = func() { w = r.WaitComplete(nil) }
+		r.StartAll()
+		verifrt.WaitIdle()
+		p := r.Pending("t0")
+		if p == nil {
+			h.Fail("C11/arrival/first-task", "t0 is not pending after the start")
+			return
+		}
+		returned, answered := 0, false
+		send := func(ref string) {
+			if kind == "message" {
+				r.Message(ref)
+			} else {
+				r.Signal(ref)
+			}
+			returned++
+		}
+		switch mode {
+		case "concurrent":
+			go func() { r.Answer(p); answered = true }()
+			for i := 0; i < n; i++ {
+				go send("A")
+			}
+		case "answer-first":
+			go func() {
+				r.Answer(p)
+				answered = true
+				for i := 0; i < n; i++ {
+					send("A")
+				}
+			}()
+		}
+		verifrt.WaitIdle()
+		if returned != n || !answered {
+			h.Fail("C11/arrival/consume-returns", "%d of %d ConsumeEvent calls returned, Do returned %v (%s); live: %v", returned, n, answered, mode, verifrt.LiveRepoGoroutines())
+			return
+		}
+		got := r.Requests("ta")
+		if got > 1 {
+			h.Fail("C11/arrival/continues-too-often", "one token reached the catch event while %d matching events were delivered (%s): the task behind it was requested %d times", n, mode, got)
+			return
+		}
+		if r.Listening["ca"] != 1 {
+			h.Fail("C11/arrival/listening", "the catch event reported listening %d times after t0 was answered", r.Listening["ca"])
+			return
+		}
+		if got == 0 {
+			// every delivery came too early: the listener must still be armed
+			go send("A")
+			verifrt.WaitIdle()
+			if returned != n+1 {
+				h.Fail("C11/arrival/consume-returns", "a delivery at quiescence after the race has not returned; live: %v", verifrt.LiveRepoGoroutines())
+				return
+			}
+			if got = r.Requests("ta"); got != 1 {
+				h.Fail("C11/arrival/does-not-continue", "no delivery of the race (%d events, %s) was taken, and a further delivery while the catch event listens leaves the task behind it requested %d times", n, mode, got)
+				return
+			}
+		}
+		// the token is past the catch event: further deliveries have no effect
+		go send("A")
+		verifrt.WaitIdle()
+		if r.Requests("ta") != 1 {
+			h.Fail("C11/arrival/continues-too-often", "a delivery after the catch event had continued produced another request")
+			return
+		}
+		r.Answer(r.Pending("ta"))
+		verifrt.WaitIdle()
+		if w == nil || !w.Returned || !w.Result {
+			h.Fail("C11/arrival/completes", "the instance does not complete after the race (%d events, %s)", n, mode)
+		}
+		if len(r.Grammar) > 0 {
+			h.Fail("C09/engine/causal-order", "%s", r.Grammar[0])
+		}
+	}
+}
+
 func init() {
 	h.Register("C11", func(tier string) ([]*h.Scn, []*h.Plain) {
 		var out []*h.Scn
@@ -245,6 +345,25 @@ func init() {
 					sc.Weight = 8 * (1 + 100*d)
 					if d == 1 {
 						sc.Split = 4
+					}
+					out = append(out, sc)
+				}
+			}
+		}
+		for _, kind := range []string{"signal", "message"} {
+			for _, mode := range []string{"concurrent", "answer-first"} {
+				bounds := []int{0, 1}
+				if thorough {
+					bounds = append(bounds, 2)
+				}
+				for _, d := range bounds {
+					if d >= 1 && kind == "message" && !thorough {
+						continue
+					}
+					sc := &h.Scn{Name: fmt.Sprintf("C11/arrival/%s/%s/events<=3/d%d", kind, mode, d), Body: arrivalBody(kind, 3, mode), Opts: verifrt.Options{Bound: d, UseCache: true}}
+					sc.Weight = 3 * (1 + 100*d*d)
+					if d >= 1 {
+						sc.Split = 4 * d
 					}
 					out = append(out, sc)
 				}
